@@ -39,6 +39,7 @@ type (
 	SQuant struct {
 		Forall bool
 		Vars   []string
+		Types  []string // optional type names ("" = Int)
 		Body   SExpr
 	}
 	SOld struct{ X SExpr }
@@ -163,13 +164,23 @@ func (p *sparser) expr() SExpr {
 	t := p.peek()
 	if t.k == "id" && (t.v == "forall" || t.v == "exists") {
 		p.p++
-		var vars []string
+		var vars, tys []string
 		for {
 			v := p.next()
 			if v.k != "id" {
 				p.fail("expected bound variable")
 			}
 			vars = append(vars, v.v)
+			ty := ""
+			if p.isOp(":") {
+				p.p++
+				tt := p.next()
+				if tt.k != "id" {
+					p.fail("expected type name")
+				}
+				ty = tt.v
+			}
+			tys = append(tys, ty)
 			if p.isOp(",") {
 				p.p++
 				continue
@@ -178,7 +189,7 @@ func (p *sparser) expr() SExpr {
 		}
 		p.expect("::")
 		body := p.expr()
-		return &SQuant{Forall: t.v == "forall", Vars: vars, Body: body}
+		return &SQuant{Forall: t.v == "forall", Vars: vars, Types: tys, Body: body}
 	}
 	return p.impl()
 }
